@@ -72,6 +72,11 @@ def commit_writers(cx):
             cx.bad(key, "RaftLog.committed is written by a call result / external callee: not a recognised writer idiom", s)
             continue
         v = write_value(cx, s)
+        from ..idioms import as_max
+        mx = as_max(v)
+        if mx and any(x[0] == "field" and x[2] == COMMITTED for x in mx):
+            cx.ok(key, "write `committed := %s` cannot decrease it (COMMIT.monotone)" % show(v), s, value=show(v))
+            continue
         require(cx, s, key,
                 "write `committed := %s` must be dominated by a guard implying it does not decrease (COMMIT.monotone)" % show(v),
                 not_less_than_old(v, COMMITTED), detail={"value": show(v)})
